@@ -83,7 +83,7 @@ def gen_history(rng):
         else:
             name = rng.choice(list(table))
             pos = rng.choice(["start", "after-pipe", "after-semicolon", "after-and", "non-first-word", "start", "every-stage"])
-            op = {"op": "use", "name": name, "pos": pos, "k": k, "args": [rng.choice(["u1", "-v", "w w"]) for _ in range(rng.randint(0, 2))]}
+            op = {"op": "use", "name": name, "pos": pos, "k": k, "args": [rng.choice(["u1", "-v", "w w"] + ([rng.choice(sorted(table))] if table else [])) for _ in range(rng.randint(0, 2))]}
             if pos == "every-stage":
                 # a pipeline of 2..4 stages whose heads are all aliases (values without a pipe), each with its own words
                 cands = [n for n in table if "|" not in table[n][0]]
